@@ -244,7 +244,12 @@ func main() {
 	n := run.Scale(350, 8000)
 	for i := 0; i < n; i++ {
 		g := &appdrv.Gen{U: u, R: run.RNG.Fork(), Weird: i%3 == 0}
-		h, _, _ := g.RandomHistory(4+run.RNG.Intn(8), 8)
+		var h appdrv.History
+		if i%4 == 3 {
+			h, _, _ = g.TransitionHistory(4+run.RNG.Intn(8), 8)
+		} else {
+			h, _, _ = g.RandomHistory(4+run.RNG.Intn(8), 8)
+		}
 		emit(run, h)
 	}
 }
